@@ -143,7 +143,7 @@ impl Model {
 
         // Elementos sin definición geométrica completa. No podemos calcular las obstrucciones
         let geometry = &window_wall.geometry;
-        if geometry.position.is_none() {
+        if geometry.position.is_none() || ray_origins.is_empty() {
             warn!(
                 "Hueco {} (id: {}) sin definición geométrica completa. Se considera superficie soleada al 100%",
                 window.name, window.id
